@@ -29,6 +29,10 @@ import (
 //	the result is keyed by the index the beacon node gave for x's validator key;
 //	a refresh that offers/answers nothing (empty or error) changes nothing.
 //
+// AtomicityClauses: also judge outcomes that no sequential order of overlapping operations produces (set by the
+// C17 wrapper; reported with the "C17/non-sequential/" prefix).
+var AtomicityClauses = false
+
 // Where the statement is silent the model is three-valued ("maybe": not compared):
 // trailing-slash specifiers, specifiers with an anchored wallet part, accounts of a
 // wallet that answered nothing while another wallet answered, records left out of a
@@ -491,6 +495,42 @@ func judge(h *history, out *sim.Outcome) *simrt.Violation {
 			default:
 				return Viol("C13/active-account-missing", "%s: result %v lacks %s", where, resString(l.Res), describe(x))
 			}
+		}
+		// (C17, not part of C13's statement) the result as a whole is that of ONE state of accounts and validators
+		// of the window, not a mixture of the account set before a refresh and the one after it
+		if AtomicityClauses && (alo < ahi || vlo < vhi) {
+			explained := false
+			for a := alo; a <= ahi && !explained; a++ {
+				for v := vlo; v <= vhi && !explained; v++ {
+					match := true
+					for x := range pl.Accts {
+						exp := A[a].known[x]
+						if exp == yes {
+							e, ok := V[v].recs[x]
+							switch {
+							case !ok:
+								exp = no
+							case !e.sure:
+								exp = maybe
+							default:
+								exp = filter(e.rec, l.Epoch)
+								if exp == yes && byIdx && !wanted[e.rec.Index] {
+									exp = no
+								}
+							}
+						}
+						if (exp == yes && !seen[x]) || (exp == no && seen[x]) {
+							match = false
+							break
+						}
+					}
+					explained = match
+				}
+			}
+			if !explained {
+				return Viol("C17/non-sequential/lookup-mixes-states", "%s: result %v is the account set of none of the account states %d..%d combined with validator states %d..%d that held during the call (each entry alone is explained by some state)", where, resString(l.Res), alo, ahi, vlo, vhi)
+			}
+			out.Probes["lookup-across-refresh-explained-by-one-state"]++
 		}
 		out.Probes["lookup-checked"]++
 		// probes: what did this lookup exercise?
